@@ -1858,7 +1858,9 @@ fn catch<T>(f: impl FnOnce() -> T) -> Option<T> {
 }
 
 fn trunc(s: String) -> String {
-    if s.len() > 120 { format!("{}…", &s[..120]) } else { s }
+    // printable ASCII only (the µ of `Timestamp(µs)` must neither split nor reach the streams)
+    let a: String = s.chars().map(|c| if c.is_ascii() && !c.is_ascii_control() { c } else { '?' }).collect();
+    if a.len() > 120 { format!("{}...", &a[..120]) } else { a }
 }
 
 /// the arrays for rows `lo..hi` of every column; `pre = Some(k)`: built with `k` junk rows in
